@@ -654,6 +654,8 @@ pub struct RefOut {
     pub setup_errors: Vec<(String, String)>,
     /// the preferences the reference session had to set (its own value after set_rules_dir differed)
     pub applied: Vec<(String, String)>,
+    /// DecimalSeparators and BlockSeparators as the reference session holds them after its set-up
+    pub seps: (String, String),
 }
 
 static REF_MEMO: OnceLock<Mutex<HashMap<u64, RefOut>>> = OnceLock::new();
@@ -745,12 +747,17 @@ pub fn reference_outputs(s: &mut Sess, fs: &SimFs, rules_dir: &str, prefs: &[(St
                     setup_errors.push((n.clone(), r.short()));
                 }
             }
+            let sep = |n: &str| match dispatch(&Op::GetPref(n.into())) {
+                Res::Ok(v) => v,
+                _ => String::new(),
+            };
+            let seps = (sep("DecimalSeparators"), sep("BlockSeparators"));
             let set_mathml = dispatch(&Op::SetMathml(ExprRef::Lit(expr)));
             let speech = dispatch(&Op::Speech);
             let braille = dispatch(&Op::Braille(IdRef::Lit(String::new())));
             let overview = dispatch(&Op::Overview);
             libmathcat::verif_hooks::install(None);
-            RefOut { set_mathml, speech, braille, overview, setup_errors, applied }
+            RefOut { set_mathml, speech, braille, overview, setup_errors, applied, seps }
         })
         .expect("spawn reference thread");
     let out = match handle.join() {
@@ -762,6 +769,7 @@ pub fn reference_outputs(s: &mut Sess, fs: &SimFs, rules_dir: &str, prefs: &[(St
             overview: Res::Err(String::new()),
             setup_errors: vec![("harness".into(), "reference thread died".into())],
             applied: vec![],
+            seps: (String::new(), String::new()),
         },
     };
     memo.lock().unwrap().insert(key, out.clone());
@@ -1018,6 +1026,10 @@ pub fn try_exprs(exprs: &[String]) -> i32 {
             libmathcat::verif_hooks::install(Some(env));
             let _ = dispatch(&Op::SetRulesDir(MOUNT_A.into()));
             for e in exprs {
+                if let Some(n) = e.strip_prefix('?') {
+                    println!("get_preference({}) -> {:?}", n, dispatch(&Op::GetPref(n.into())));
+                    continue;
+                }
                 if !e.starts_with('<') {
                     if let Some((n, v)) = e.split_once('=') {
                         println!("set_preference({},{}) -> {:?}", n, v, dispatch(&Op::SetPref(n.into(), v.into())));
